@@ -5,4 +5,8 @@ From V Require Import C16.Model.
 Extraction "c16_model.ml" on_new_block on_new_l1_head after_prune prune_floor seed_floor floor_of raise_to
   bound_ok min_age_ok find_oldest sample_height apply_batches prune_plan plan_oldest_kept interrupted
   oldest pruned set_block set_window can_revert can_extend answers all_accs all_fams needs
-  read_old read_new last_upd state_served store_bits full_store to_Z to_nat' N.of_nat Z.of_N.
+  read_old read_new last_upd state_served store_bits full_store to_Z to_nat' N.of_nat Z.of_N
+  (* the history-pruner migration (C16/Migrate.v) *)
+  mig_run mig_plan next_blob run_floor sched_ok sched_exact run_pre restage mig_final full_mstore
+  mapply_batches summary_tag mig_floor_ok compute_floor pure_floor setup2_seed_unguarded start_of eff_sp
+  scr_empty oldest_retained.
